@@ -42,6 +42,9 @@ type C07Call struct {
 	// Y: the instrumented fetcher yields the processor on every Y-th Get / Cached (0: never), so that
 	// other goroutines run between two fetches of one evaluation
 	Y int `json:"y,omitempty"`
+	// Done: the call's Ctx carries a context.Context that is already cancelled (1) or past its deadline (2).
+	// Whatever the engine makes of it, it makes the same of it in isolation.
+	Done int `json:"done,omitempty"`
 }
 
 type C07Case struct {
@@ -62,11 +65,12 @@ func genC07Calls(t *rapid.T, nprogs, lo, hi int) []C07Call {
 	out := make([]C07Call, n)
 	for i := range out {
 		out[i] = C07Call{
-			P:   rapid.IntRange(0, nprogs-1).Draw(t, "prog"),
-			Op:  pickW(t, "op", 6, 4, 1, 1, 2),
-			B:   rapid.IntRange(0, c07Bindings-1).Draw(t, "bind"),
-			Ctx: pickW(t, "ctx", 4, 1, 2, 2),
-			Y:   pickW(t, "yield", 3, 2, 1, 1),
+			P:    rapid.IntRange(0, nprogs-1).Draw(t, "prog"),
+			Op:   pickW(t, "op", 6, 4, 1, 1, 2),
+			B:    rapid.IntRange(0, c07Bindings-1).Draw(t, "bind"),
+			Ctx:  pickW(t, "ctx", 4, 1, 2, 2),
+			Y:    pickW(t, "yield", 3, 2, 1, 1),
+			Done: pickW(t, "donectx", 8, 1, 1),
 		}
 	}
 	return out
@@ -264,6 +268,9 @@ func c07Do(e *eval.Expr, cc *eval.Config, u *Universe, call C07Call, sharedMaps 
 		}); o.Panic != nil {
 			return c07Result{o: o}
 		}
+		if ctx != nil {
+			ctx.Ctx = doneContext(call.Done)
+		}
 		switch call.Op {
 		case 0:
 			return c07Result{o: Safe(func() (eval.Value, error) { return e.Eval(ctx) })}
@@ -273,12 +280,17 @@ func c07Do(e *eval.Expr, cc *eval.Config, u *Universe, call C07Call, sharedMaps 
 			return c07Result{o: Safe(func() (eval.Value, error) { return e.EvalBool(ctx) })}
 		}
 	}
+	fctx := func() *eval.Ctx {
+		ctx := f.Ctx()
+		ctx.Ctx = doneContext(call.Done)
+		return ctx
+	}
 	switch call.Op {
 	case 0:
-		return c07Result{o: Safe(func() (eval.Value, error) { return e.Eval(f.Ctx()) })}
+		return c07Result{o: Safe(func() (eval.Value, error) { return e.Eval(fctx()) })}
 	case 1:
 		f.Avail = avail
-		return c07Result{o: Safe(func() (eval.Value, error) { return e.TryEval(f.Ctx()) })}
+		return c07Result{o: Safe(func() (eval.Value, error) { return e.TryEval(fctx()) })}
 	case 2:
 		s, o := SafeStr(func() string { return eval.Dump(e) })
 		return c07Result{o: o, text: s}
@@ -286,8 +298,32 @@ func c07Do(e *eval.Expr, cc *eval.Config, u *Universe, call C07Call, sharedMaps 
 		s, o := SafeStr(func() string { return eval.DumpTable(e, call.B%2 == 0) })
 		return c07Result{o: o, text: s}
 	default:
-		return c07Result{o: Safe(func() (eval.Value, error) { return e.EvalBool(f.Ctx()) })}
+		return c07Result{o: Safe(func() (eval.Value, error) { return e.EvalBool(fctx()) })}
 	}
+}
+
+var (
+	cancelledCtx, pastDeadlineCtx context.Context
+	doneOnce                      sync.Once
+)
+
+// doneContext: nil, an already cancelled context, or one whose deadline has passed.
+func doneContext(kind int) context.Context {
+	doneOnce.Do(func() {
+		c, cancel := context.WithCancel(context.Background())
+		cancel()
+		cancelledCtx = c
+		d, cancel2 := context.WithDeadline(context.Background(), time.Unix(1, 0))
+		_ = cancel2
+		pastDeadlineCtx = d
+	})
+	switch kind {
+	case 1:
+		return cancelledCtx
+	case 2:
+		return pastDeadlineCtx
+	}
+	return nil
 }
 
 type progSnapshot struct {
@@ -411,7 +447,7 @@ func checkC07(c C07Case, r *Rec) *Violation {
 				return Violf("C07: %s panics in isolation: %v\nsrc=%s", callName(call), pr.want[call].o, m.Render(p.Tree))
 			}
 			// cross-check the isolated Eval against the reference semantics
-			if call.Op == 0 && call.Ctx == 0 {
+			if call.Op == 0 && call.Ctx == 0 && call.Done == 0 { // (what a done context.Context means to Eval is judged against isolation only)
 				vars, fail, _ := c07Binding(&p.U, call.B)
 				if dt, err := m.ReadDump(eval.Dump(fresh)); err == nil {
 					ref := &m.Env{Vars: vars, Fail: fail, Custom: customModel(), Fast: p.Mask&MaskFast != 0}
@@ -570,7 +606,7 @@ func checkC07(c C07Case, r *Rec) *Violation {
 
 var propC07 = Prop[C07Case]{
 	ID:       "C07",
-	Rule:     "histories over 1..3 shared compiled programs (typed random tree x optimization subset x {no events, ReportEvent, Debug}), 6 bindings each (three of them with an additional failing fetch, so successes and failures mix): a sequential part of 10..60 calls (Eval, TryEval, Dump, DumpTable, EvalBool) and a concurrent part of 2..8 (16 thorough) goroutines x 10..50 (200) calls started behind one barrier, GOMAXPROCS 1 / 2 / 4 / the machine's (drawn), each call with its own context (the harness's instrumented fetcher - which yields the processor on every 1st / 2nd / 3rd fetch or never (drawn per call), so that with few processors whole evaluations of other goroutines run between two fetches of one evaluation -, the library's NewCtxFromVars over the values, an empty NewCtxFromVars context filled with Ctx.Set, or NewCtxFromVars over one raw-typed bindings map per binding that the caller keeps and shares between all goroutines); event consumer prompt / buffered / slow. Oracles: every call returns what the same call returns on a freshly compiled unshared program (itself cross-checked against R when unoptimized); the flat program read through the read-only hook (flags, child counts, jump indexes, stack slots, keys, values, operator identities, parent table, stack bound) is identical before and after; the test binary runs under the Go race detector (halt on first report; the case is written to disk before it runs). Non-trivial = at least two goroutines had completed a call when the first goroutine finished (measured) and the sequential history mixes failing and succeeding calls; distinct by the whole history",
+	Rule:     "histories over 1..3 shared compiled programs (typed random tree x optimization subset x {no events, ReportEvent, Debug}), 6 bindings each (three of them with an additional failing fetch, so successes and failures mix): a sequential part of 10..60 calls (Eval, TryEval, Dump, DumpTable, EvalBool) and a concurrent part of 2..8 (16 thorough) goroutines x 10..50 (200) calls started behind one barrier, GOMAXPROCS 1 / 2 / 4 / the machine's (drawn), each call with its own context - one in five carrying an already cancelled or expired context.Context - (the harness's instrumented fetcher - which yields the processor on every 1st / 2nd / 3rd fetch or never (drawn per call), so that with few processors whole evaluations of other goroutines run between two fetches of one evaluation -, the library's NewCtxFromVars over the values, an empty NewCtxFromVars context filled with Ctx.Set, or NewCtxFromVars over one raw-typed bindings map per binding that the caller keeps and shares between all goroutines); event consumer prompt / buffered / slow. Oracles: every call returns what the same call returns on a freshly compiled unshared program (itself cross-checked against R when unoptimized); the flat program read through the read-only hook (flags, child counts, jump indexes, stack slots, keys, values, operator identities, parent table, stack bound) is identical before and after; the test binary runs under the Go race detector (halt on first report; the case is written to disk before it runs). Non-trivial = at least two goroutines had completed a call when the first goroutine finished (measured) and the sequential history mixes failing and succeeding calls; distinct by the whole history",
 	Gen:      genC07,
 	Check:    checkC07,
 	PreWrite: true,
